@@ -185,6 +185,7 @@ type NativeRunner struct {
 	PkgPath string // harness package import path
 	Entries []string
 	Race    bool // build with the race detector; a report counts as failing "race-detector"
+	InPkg   bool // the harness lives in package main of Dir: replay through a generated _test.go
 	bin     string
 	err     error
 	once    sync.Once
@@ -193,6 +194,10 @@ type NativeRunner struct {
 
 func (n *NativeRunner) build() {
 	n.once.Do(func() {
+		if n.InPkg {
+			n.buildInPkg()
+			return
+		}
 		name := "replay_" + strings.NewReplacer("/", "_", ".", "_").Replace(n.PkgPath)
 		n.cmdDir = filepath.Join(n.Dir, "zzcmd", name)
 		os.MkdirAll(n.cmdDir, 0o755)
@@ -219,6 +224,26 @@ func (n *NativeRunner) build() {
 	})
 }
 
+// buildInPkg: the harness is in package main; a generated test file is the replay driver.
+func (n *NativeRunner) buildInPkg() {
+	n.cmdDir = n.Dir
+	var b strings.Builder
+	b.WriteString("package main\n\nimport (\n\t\"os\"\n\t\"testing\"\n\n\t\"vhlib/rt\"\n)\n\nfunc TestVerifReplay(t *testing.T) {\n\tos.Args = []string{\"replay\", os.Getenv(\"VERIF_CASES\")}\n\trt.Main(map[string]any{\n")
+	for _, e := range n.Entries {
+		fmt.Fprintf(&b, "\t\t%q: %s,\n", e, e)
+	}
+	b.WriteString("\t})\n}\n")
+	if err := os.WriteFile(filepath.Join(n.Dir, "zz_verif_replay_test.go"), []byte(b.String()), 0o644); err != nil {
+		n.err = err
+		return
+	}
+	n.bin = filepath.Join(n.Dir, "zz_replay.test.bin")
+	out, err := run(n.Dir, "go", "test", "-c", "-vet=off", "-o", n.bin, ".")
+	if err != nil {
+		n.err = fmt.Errorf("native replay build failed: %v\n%s", err, out)
+	}
+}
+
 // Run executes the cases natively and returns one outcome per case.
 func (n *NativeRunner) Run(cases []ReplayCase, timeout time.Duration) ([]ReplayOutcome, error) {
 	n.build()
@@ -234,6 +259,11 @@ func (n *NativeRunner) Run(cases []ReplayCase, timeout time.Duration) ([]ReplayO
 	defer os.Remove(f.Name())
 	cmd := exec.Command(n.bin, f.Name())
 	cmd.Env = goEnv()
+	if n.InPkg {
+		cmd = exec.Command(n.bin, "-test.run", "^TestVerifReplay$")
+		cmd.Env = append(goEnv(), "VERIF_CASES="+f.Name())
+		cmd.Dir = n.Dir
+	}
 	var out strings.Builder
 	var errb strings.Builder
 	cmd.Stdout = &out
